@@ -317,6 +317,14 @@ func TestVerif_C04_chunk(t *testing.T) {
 			s.Case("c04chunkE "+strconv.Itoa(B)+" "+verifh.Hex(stream), base, agree, class, !strings.Contains(base, "body=_"), human)
 		}
 		}
+	// the byte-position matrix: all 256 byte values at every position of the chunk framing
+	for _, bp := range c04ChunkBytePositions() {
+		for b := 0; b < 256; b++ {
+			s.Count("byte-position")
+			reached["byte-position"]++
+			runStream(bp.tmpl[:bp.pos] + string([]byte{byte(b)}) + bp.tmpl[bp.pos+1:])
+		}
+	}
 	// the single-fault matrix first (deterministic): every chunk-size line, last-chunk line,
 	// byte sequence after chunk data and extension length of the tables on an otherwise clean body
 	for _, st := range c04ChunkSingleFault() {
@@ -351,7 +359,7 @@ func TestVerif_C04_chunk(t *testing.T) {
 		runStream(stream)
 	}
 	s.Finish()
-	for _, need := range []string{"single-fault", "eof", "err", "err:eof", "err:chunk", "err:toolong", "gen:ext", "gen:ext-long", "gen:size-empty", "gen:size-bad", "gen:hex16", "gen:bad-crlf", "gen:cut", "gen:mutated", "gen:excess-long-ext", "gen:excess-many"} {
+	for _, need := range []string{"single-fault", "byte-position", "eof", "err", "err:eof", "err:chunk", "err:toolong", "gen:ext", "gen:ext-long", "gen:size-empty", "gen:size-bad", "gen:hex16", "gen:bad-crlf", "gen:cut", "gen:mutated", "gen:excess-long-ext", "gen:excess-many"} {
 		if reached[need] == 0 {
 			t.Errorf("C04/chunk never reached %q", need)
 		}
@@ -387,5 +395,29 @@ func c04ChunkSingleFault() []string {
 	for k := 0; k <= len(clean); k++ {
 		out = append(out, clean[:k])
 	}
+	return out
+}
+
+type c04ChunkBytePos struct {
+	tmpl string
+	pos  int
+}
+
+// c04ChunkBytePositions: every byte of the chunk framing of a clean two-chunk body: the size
+// digits (first, middle, last, single), ';', extension bytes, every CR and LF, the last-chunk "0".
+func c04ChunkBytePositions() []c04ChunkBytePos {
+	var out []c04ChunkBytePos
+	at := func(pre, field, post string) {
+		for i := range field {
+			out = append(out, c04ChunkBytePos{tmpl: pre + field + post, pos: len(pre) + i})
+		}
+	}
+	data26 := "abcdefghijklmnopqrstuvwxyz"
+	at("", "01a;x=y\r\n", data26+"\r\n0\r\n\r\nREST")
+	at("", "5\r\n", "hello\r\n0\r\n\r\nREST")
+	at("3\r\nabc\r\n", "1A\r\n", data26+"\r\n0\r\n\r\nREST")
+	at("5\r\nhello", "\r\n", "0\r\n\r\nREST")
+	at("5\r\nhello\r\n", "0\r\n", "\r\nREST")
+	at("5\r\nhello\r\n", "000;e\r\n", "\r\nREST")
 	return out
 }
